@@ -256,6 +256,155 @@ def case_mass_inverse(log, generalised):
 
 
 # ---------------------------------------------------------------------------
+# the requested inversion method reaches build_ome: operator_matrix_element.matching_method -> build_ome
+# ---------------------------------------------------------------------------
+def case_requested_method(log, n=2, m=2):
+    """For every value of the operator card's inversion method (None = forward, exact, expanded) the matching operator built by
+    build_ome(A, order, a_s, matching_method(request)) is what was requested: forward F; exact: the exact inverse of F; expanded: its series inverse
+    and NOT more than that is claimed."""
+    import importlib
+    from eko.io.types import InversionMethod
+
+    qk = sym_module("eko.evolution_operator.quad_ker")
+    om = importlib.import_module("eko.evolution_operator.operator_matrix_element")
+    log.encode(om.matching_method, qk.build_ome)
+    jetmod.set_cap(m + 2)
+    D = Decider(log)
+
+    def mk(req):
+        def run():
+            A = _sym_matrices(m, n)
+            alpha = SR.var("alpha")
+            assume(alpha, ">0")
+            rp = (MOD, "replay_requested_method", {"req": None if req is None else req.value, "n": n, "m": m})
+            meth = om.matching_method(req)
+            name = "forward" if req is None else req.value
+            F = realnp.empty((n, n), dtype=object)
+            for i in range(n):
+                for j in range(n):
+                    F[i, j] = SR(1 if i == j else 0)
+                    for k in range(m):
+                        F[i, j] = F[i, j] + alpha ** (k + 1) * A[k, i, j]
+            if req is InversionMethod.EXPANDED:
+                a_s = Jet.lam() * alpha
+                B = qk.build_ome(A, (m, 0), a_s, meth)
+                Fj = qk.build_ome(A, (m, 0), a_s, qk.MatchingMethods.FORWARD)
+                prod = B @ Fj
+                for i in range(n):
+                    for j in range(n):
+                        d = _as_jet(prod[i, j]) - (1 if i == j else 0)
+                        for k in range(0, m + 1):
+                            v = prove_zero(d._known(k), "requested 'expanded': a_s^%d coefficient of (operator @ forward - 1)[%d,%d] == 0" % (k, i, j))
+                            D(v, key="matching_method:expanded", replay=rp, sampler=_sampler)
+            else:
+                B = qk.build_ome(A, (m, 0), alpha, meth)
+                target = B if req is None else B @ F
+                for i in range(n):
+                    for j in range(n):
+                        want = F[i, j] if req is None else (1 if i == j else 0)
+                        v = prove_zero(SR(0) + target[i, j] - want, "requested '%s': %s [%d,%d]" % (name, "operator == forward matching" if req is None else "operator @ forward == identity exactly", i, j), timeout_ms=60000)
+                        D(v, key="matching_method:%s" % name, replay=rp, sampler=_sampler)
+            log.twin("domain")
+            log.collect_ctx()
+
+        return run
+
+    for req in (None, InversionMethod.EXACT, InversionMethod.EXPANDED):
+        _r, pm = explore(mk(req))
+        log.path_stats(pm)
+
+
+def replay_requested_method(point, req, n, m):
+    import importlib
+    import numpy as np
+    from eko.io.types import InversionMethod
+
+    qk = importlib.import_module("eko.evolution_operator.quad_ker")
+    om = importlib.import_module("eko.evolution_operator.operator_matrix_element")
+    A = _mats(point, n)
+    a = float(point.get("alpha", 0.03))
+    if not 0.005 < a < 0.06:
+        return None
+    r = None if req is None else InversionMethod(req)
+    B = qk.build_ome(A, (m, 0), a, om.matching_method(r))
+    F = np.eye(n, dtype=complex)
+    for k in range(m):
+        F = F + a ** (k + 1) * A[k]
+    if r is None:
+        e = np.abs(B - F).max()
+        return {"detail": "forward request: operator differs from 1 + sum a^k A_k by %g" % e} if e > 1e-12 else None
+    e = np.abs(B @ F - np.eye(n)).max()
+    if r is InversionMethod.EXACT and e > 1e-10:
+        return {"detail": "inversion method 'exact' requested: |operator @ forward - 1| = %g at a_s=%r (order %d, %dx%d): not the matrix inverse" % (e, a, m, n, n)}
+    if r is InversionMethod.EXPANDED:
+        e2 = np.abs(qk.build_ome(A, (m, 0), a / 2, om.matching_method(r)) @ (np.eye(n) + sum((a / 2) ** (k + 1) * A[k] for k in range(m))) - np.eye(n)).max()
+        if e > 1e-13 and e2 > 0 and np.log2(e / e2) < m + 0.5:
+            return {"detail": "inversion method 'expanded' requested: defect %g -> %g when halving a_s, slower than a_s^%d" % (e, e2, m + 1)}
+    return None
+
+
+# ---------------------------------------------------------------------------
+# the downward tables do not depend on what was asked before (both schemes used in one process)
+# ---------------------------------------------------------------------------
+def case_coupling_sequence(log):
+    """compute_matching_coeffs_down called for one scheme and then for the other (and in the opposite order) with the same concrete nf, upward tables
+    generalised to free symbols per scheme: each downward table must invert the upward table of ITS OWN scheme, whatever was requested before."""
+    cpl = sym_module("eko.couplings")
+    log.encode(cpl.compute_matching_coeffs_down, cpl.invert_matching_coeffs)
+    jetmod.set_cap(6)
+    D = Decider(log)
+
+    def mk(first, second, nf):
+        def run():
+            L = SR.var("L")
+            alpha = SR.var("alpha")
+            assume(alpha, ">0")
+            real_up = cpl.compute_matching_coeffs_up
+            tabs = {}
+            for sch in ("POLE", "MSBAR"):
+                t, _n = _generalise(_exact(real_up(sch, nf)), prefix="c%s" % sch[0])
+                tabs[sch] = t
+            cpl.compute_matching_coeffs_up = lambda s_, n: tabs[s_]
+            try:
+                downs = [(sch, cpl.compute_matching_coeffs_down(sch, nf)) for sch in (first, second, first)]
+            finally:
+                cpl.compute_matching_coeffs_up = real_up
+            a = Jet.lam() * alpha
+            rp = (MOD, "replay_coupling_sequence", {"first": first, "second": second, "nf": nf})
+            for pos, (sch, down) in enumerate(downs):
+                comp = _apply(_apply(a, tabs[sch], L, 4), down, L, 4)
+                d = _as_jet(comp) - a
+                for k in range(0, 5):
+                    v = prove_zero(d._known(k), "call %d of the sequence %s,%s,%s (nf=%d): a^%d coefficient of down_%s(up_%s(a)) - a == 0" % (pos + 1, first, second, first, nf, k, sch, sch))
+                    D(v, key="compute_matching_coeffs_down:sequence", replay=rp, sampler=_sampler)
+            log.twin("domain")
+
+        return run
+
+    for nf in (3, 4, 5):
+        for first, second in (("POLE", "MSBAR"), ("MSBAR", "POLE")):
+            _r, pm = explore(mk(first, second, nf))
+            log.path_stats(pm)
+
+
+def replay_coupling_sequence(point, first, second, nf):
+    """real functions in one clean interpreter: the two schemes one after the other; every downward table against the exact series inverse of its own upward table"""
+    from eko import couplings as cpl
+
+    L = Fraction(point.get("L", Fraction(1, 2)))
+    for sch in (first, second, first):
+        down = cpl.compute_matching_coeffs_down(sch, nf)
+        up = cpl.compute_matching_coeffs_up(sch, nf)
+        res = _compose_poly(up.tolist(), down.tolist(), L, 4)
+        scale = max(1.0, max(abs(float(x)) for x in res))
+        for k in range(0, 5):
+            want = 1 if k == 1 else 0
+            if abs(float(res[k]) - want) > 1e-9 * scale:
+                return {"detail": "after the calls %s -> %s: down_%s(up_%s(a)) has a^%d coefficient %r (expected %d) for nf=%d, L=%s" % (first, second, sch, sch, k, float(res[k]), want, nf, L)}
+    return None
+
+
+# ---------------------------------------------------------------------------
 # mass decoupling as applied by msbar_masses.evolve: up-then-down and down-then-up round trips
 # ---------------------------------------------------------------------------
 def case_mass_roundtrip(log, order):
@@ -504,10 +653,12 @@ def main():
                   "symbols on the support of the real tables (c[1,0] = 0 for the coupling, c[1,*] = 0 for the mass) and the real tables themselves"]
     chk.bounds.append("mass round trip through the real msbar_masses.evolve (orders 3, 4; thresholds 3|4, 4|5, 5|6; symbolic L): the stand-in coupling object returns "
                       "a_s^(nf+1) = A and a_s^(nf) = A*zeta_g^2(A,L) (real MSBAR downward table), m^2_out/m^2_in - 1 = O(A^order) in both orders of traversal")
+    chk.bounds.append("sequence: both mass schemes requested one after the other in one process (both orders, first scheme again afterwards), nf in {3,4,5} concrete, tables symbolic per scheme")
+    chk.bounds.append("requested inversion method (None / exact / expanded) through operator_matrix_element.matching_method into build_ome: 2x2, order 2")
     chk.out_of_claim = ["floating-point conditioning of numpy.linalg.inv (LAPACK) -- replaced by the exact adjugate",
                         "matrix sizes other than 2 and 3; complex entries are covered because the identities are polynomial (real symbols suffice)",
                         "which table / logarithm Couplings.a and msbar_masses.evolve pick per threshold (C16, C18); here only that their round trips close"]
-    preimport("eko.evolution_operator.quad_ker", "eko.msbar_masses")
+    preimport("eko.evolution_operator.quad_ker", "eko.evolution_operator.operator_matrix_element", "eko.msbar_masses")
 
     chk.stubs = ["numpy.linalg.inv -> exact adjugate/determinant inverse (symx shim)",
                  "mass round trip: the Couplings object handed to evolve -> recorder returning symbolic a_s per requested nf (a, a_s, a_em); thresholds_ratios -> tokens (value 1, symbolic log)"]
@@ -522,6 +673,8 @@ def main():
     for scheme in ("POLE", "MSBAR"):
         for g in (True, False):
             chk.case("coupling.%s.%s" % (scheme, "generalised" if g else "real"), case_coupling_inverse, scheme=scheme, generalised=g)
+    chk.case("ome.requested-method", case_requested_method)
+    chk.case("coupling.sequence", case_coupling_sequence)
     for g in (True, False):
         chk.case("mass.%s" % ("generalised" if g else "real"), case_mass_inverse, generalised=g)
     for order in (3, 4):
